@@ -81,6 +81,14 @@ CLAIMED = {
         "Trusted: z3 LIA, the Jinja/Python AST condition translators (untranslatable conditions are left unconstrained = link may be emitted).",
         "DESIGN.md §5 C09",
     ),
+    "C14": (
+        "symbolic execution of the real FortranLine/convertToFree feeding the real free-form reader on symbolic fixed-form fragments (finite-choice lines), decided by z3",
+        "For every combination of statement line (label, padding to column 72, sequence-field text), intermediate comment/blank line of every "
+        "style and continuation-or-new line (every continuation character class), with the length limit on and off, the logical statements "
+        "delivered equal the fixed-form column rules (F2008 3.3.3).",
+        "Trusted: z3, CV evaluator, the column-rule oracle in fv/props/c14.py.",
+        "DESIGN.md §5 C14",
+    ),
     "C15": (
         "symbolic execution of the real settings pipeline (meta_preprocessor, convert_setting, ProjectSettings, parse_arguments) with finite-choice value forms and presence flags, decided by z3",
         "For one option of each type of the settings schema: every markdown-metadata form and the TOML-native form give the same effective value; "
